@@ -75,7 +75,10 @@ class Raise:
         # String Exceptions are deprecated on Python 2.5 and
         # plain won't work at all on Python 2.6. So try to upgrade it
         # to a real exception.
-        t, v = upgradeException(t, v)
+        if not (isinstance(t, type) and issubclass(t, BaseException)):
+            # (an exception class computed by the expression is raised as it
+            # is, not replaced by a well-known class of the same name)
+            t, v = upgradeException(t, v)
         raise t(v)
 
     __call__ = render
